@@ -54,7 +54,10 @@ EXTRA = {
                    "ext), same_types, cellgrid_is_raw (+ C03 origin slice), non_table_blocks_equal, "
                    "jsondata_commutes / jsondata_commutes_read (make_table_json_data p == table_to_json_data (Table of p) as "
                    "Python values, columns member identical in order, for every precursor a reader delivers: "
-                   "makePrecursor_shape). unknown_form_rejected is harness-only (generator semantics).",
+                   "makePrecursor_shape + C13 names_unique; only the iteration order of the destination set stays a hypothesis). unknown_form_rejected: a `to` outside the "
+                   "translated TABLE_HANDLERS keys (Gen.tableHandlers, pinned) is answered with ValueError identically for "
+                   "every row sequence; that the Python generator raises at the first next() without touching its input is "
+                   "observed by the harness (recording iterator / stream).",
 }
 
 FORMS = ("pdtable", "jsondata", "cellgrid")
@@ -334,8 +337,9 @@ def non_table_canon(v):
     return ("rows", grid_to_json(v))
 
 
-def oracle(out, case, api, seen_rows, tables, filt_py, results):
-    """results: {form: (status, blocks)}; the pdtable read succeeded"""
+def oracle(out, case, api, sheets, tables, filt_py, results):
+    """results: {form: (status, blocks)}; the pdtable read succeeded.  sheets: the rows the reader was fed, per
+    worksheet (one list for parse_blocks / read_csv); tables: (sheet, start row in that sheet, number of rows, name)"""
     from pdtable.io.json import table_to_json_data
     P, J, C = (results[f][1] for f in FORMS)
     for f in ("jsondata", "cellgrid"):
@@ -348,7 +352,7 @@ def oracle(out, case, api, seen_rows, tables, filt_py, results):
         out.fail(f"{api}: the three forms deliver different block-type sequences", case,
                  {"pdtable": types[0], "jsondata": types[1], "cellgrid": types[2]}, "equal sequences", key="types")
         return
-    expected = [t for t in tables if filt_py is None or filt_py(_bt("TABLE"), t[2])]
+    expected = [t for t in tables if filt_py is None or filt_py(_bt("TABLE"), t[3])]
     k = 0
     for (ty, vp), (_, vj), (_, vc) in zip(P, J, C):
         if ty != "TABLE":
@@ -371,10 +375,10 @@ def oracle(out, case, api, seen_rows, tables, filt_py, results):
         if k >= len(expected):
             out.fail(f"{api}: more table blocks than tables in the input", case, len(P), len(expected), key="table_count")
             return
-        start, n, name = expected[k]
+        sheet, start, n, name = expected[k]
         k += 1
         origin = vp.metadata.origin.input_location.row
-        raw = seen_rows[start:start + n]
+        raw = sheets[sheet][start:start + n]
         if origin != start or grid_to_json(vc) != grid_to_json(raw):
             out.fail(f"{api}: a cellgrid table is not the raw rows of its block", dict(case, table=name),
                      {"origin": origin, "cellgrid": grid_to_json(vc)}, {"origin": start, "rows": grid_to_json(raw)}, key="cellgrid_raw")
@@ -404,6 +408,49 @@ def oracle(out, case, api, seen_rows, tables, filt_py, results):
 def _bt(name):
     from pdtable import BlockType
     return BlockType[name]
+
+
+def write_workbook(path, sheets):
+    """-> the rows openpyxl delivers per worksheet when the harness reads the file itself"""
+    import openpyxl
+    wb = openpyxl.Workbook()
+    for k, rows in enumerate(sheets):
+        ws = wb.active if k == 0 else wb.create_sheet(f"S{k + 1}")
+        for r_i, r in enumerate(rows, 1):
+            for c_i, c in enumerate(r, 1):
+                if c is not None:
+                    ws.cell(row=r_i, column=c_i, value=c)
+    wb.save(path)
+    wb.close()
+    wb2 = openpyxl.load_workbook(path, read_only=True, data_only=True, keep_links=False)
+    seen = [[list(r) for r in ws.iter_rows(values_only=True)] for ws in wb2.worksheets]
+    wb2.close()
+    return seen
+
+
+def split_sheets(rng, rows, tables):
+    """cut the stream after a blank line outside every table: two worksheets (read_excel runs parse_blocks per sheet)"""
+    inside = set()
+    for start, n, _ in tables:
+        inside.update(range(start, start + n))
+    cuts = [i for i, r in enumerate(rows) if i not in inside and 0 < i < len(rows) - 1 and ref_kind(r).startswith("blank")
+            and len(r) <= 1]
+    if not cuts:
+        return [rows], [(0, st, n, nm) for st, n, nm in tables]
+    cut = rng.choice(cuts) + 1
+    return [rows[:cut], rows[cut:]], [((0, st, n, nm) if st < cut else (1, st - cut, n, nm)) for st, n, nm in tables]
+
+
+def merge_model(answers):
+    """one parse_blocks per worksheet, in order; a sheet that ends in an exception ends the read"""
+    blocks = []
+    for a in answers:
+        if "blocks" not in a:
+            return a
+        blocks += a["blocks"]
+        if a["ending"] != "exhausted":
+            return {"blocks": blocks, "issues": a.get("issues", []), "ending": a["ending"]}
+    return {"blocks": blocks, "issues": [], "ending": "exhausted"}
 
 
 class RecordingIter:
@@ -441,7 +488,7 @@ class RecordingStream(io.StringIO):
         return super().readlines(*a)
 
 
-def check_unknown_form(out, case, rows, text, xlsx, to):
+def check_unknown_form(out, case, rows, text, xlsx, to, ops=None, pend=None):
     from pdtable.io.parsers.blocks import parse_blocks
     from pdtable import read_csv, read_excel
     rec = RecordingIter([list(r) for r in rows])
@@ -463,6 +510,11 @@ def check_unknown_form(out, case, rows, text, xlsx, to):
         except Exception as e:  # noqa: BLE001
             got = type(e).__name__
         c = dict(case, api=api, to=repr(to))
+        if api == "parse_blocks" and ops is not None and isinstance(to, str):
+            op = bc.model_op(rows, to="pdtable", filt=None, tracker="raising")
+            op["op"], op["to"] = "parse_blocks_json", to
+            ops.append(op)
+            pend.append((f"parse_blocks(to={to!r})", c, {"exc": got}, 1))
         if got != "ValueError":
             out.fail(f"{api}: an unknown output form is not rejected with ValueError", c, got, "ValueError", key="unknown_form")
         elif touched() != 0:
@@ -480,8 +532,9 @@ def run(tier, seed, model_ok, translator, search=False):
                 "both orientations, zero rows, no columns at all (name and destination rows only), padding, comments after the names) interleaved with metadata, directives, "
                 "template rows, comments, late `key:` rows and blank lines with payload, with and without blank separators, "
                 "25 % with a read filter; the three readers of a case are consumed one after the other (30 %), in lock-step (40 %) "
-                "or staggered (a reader started after k blocks of another, 30 %); each through parse_blocks (text / native cells), read_csv (StringIO) and read_excel "
-                "(openpyxl workbook in a scratch dir) x {pdtable, jsondata, cellgrid}; plus unknown output forms with a "
+                "or staggered (a reader started after k blocks of another, 30 %); each through parse_blocks (text / native cells), read_csv (StringIO; half of the texts "
+                "without a final newline) and read_excel (openpyxl workbook in a scratch dir; a third split into two "
+                "worksheets) x {pdtable, jsondata, cellgrid}; plus unknown output forms with a "
                 "recording iterator / stream. Non-trivial: at least one table with a column and a row; distinct by rows.")
     rng = make_rng(seed, "C07")
     thorough = tier == "thorough" or search
@@ -496,37 +549,40 @@ def run(tier, seed, model_ok, translator, search=False):
             rows, tables, kinds = gen_stream(rng, native)
             filt_py, filt_spec = gen_filter(rng, tables)
             text = xlsx = None
+            tables4 = [(0, st, k, nm) for st, k, nm in tables]
             if api == "read_csv":
                 rows = csv_safe(rows)
-                text = "".join(SEP.join(r) + "\n" for r in rows)
-                seen = [line.split(SEP) for line in text.split("\n")[:-1]]
+                # half of the texts do not end with a newline (the last line is then read without one)
+                text = "\n".join(SEP.join(r) for r in rows) + ("\n" if rng.random() < 0.5 else "")
+                out.count("csv:" + ("final newline" if text.endswith("\n") else "no final newline"))
+                lines = text.split("\n")
+                if lines[-1] == "":
+                    lines.pop()          # iterating a text file yields nothing after the last newline
+                sheets = [[line.split(SEP) for line in lines]]
                 src = text
             elif api == "read_excel":
                 rows = excel_safe(rows)
                 xlsx = os.path.join(tmp, f"w{i}.xlsx")
-                wb = openpyxl.Workbook()
-                ws = wb.active
-                for r_i, r in enumerate(rows, 1):
-                    for c_i, c in enumerate(r, 1):
-                        if c is not None:
-                            ws.cell(row=r_i, column=c_i, value=c)
-                wb.save(xlsx)
-                wb.close()
-                wb2 = openpyxl.load_workbook(xlsx, read_only=True, data_only=True, keep_links=False)
-                seen = [list(r) for r in wb2.worksheets[0].iter_rows(values_only=True)]
-                wb2.close()
+                parts = [rows]
+                if rng.random() < 0.35:
+                    parts, tables4 = split_sheets(rng, rows, tables)
+                out.count("excel:" + ("two worksheets" if len(parts) == 2 else "one worksheet"))
+                sheets = write_workbook(xlsx, parts)
                 src = xlsx
             else:
-                seen = [list(r) for r in rows]
+                sheets = [[list(r) for r in rows]]
                 src = rows
+            seen = sheets[0]
             case = {"seed": seed, "index": i, "api": api, "rows": grid_to_json(seen), "filter": filt_spec,
-                    "tables": [[s, k, nm] for s, k, nm in tables]}
+                    "tables": [list(t) for t in tables4]}
+            if len(sheets) > 1:
+                case["sheets"] = [grid_to_json(sh) for sh in sheets]
             plan = gen_plan(rng)
             case["plan"] = plan
             results = read_forms(api, src, filt_py, plan)
             out.count("readers:" + plan["mode"])
             nontrivial = any(k.startswith("col:") for k in kinds) and any(k.startswith("rows:") and k != "rows:0" for k in kinds)
-            c08.add_case(out, case, [api, case["rows"], filt_spec], nontrivial)
+            c08.add_case(out, case, [api, case["rows"], case.get("sheets"), filt_spec], nontrivial)
             out.count("api:" + api)
             for k in kinds:
                 out.count("el:" + k)
@@ -534,18 +590,20 @@ def run(tier, seed, model_ok, translator, search=False):
                 out.count("with filter")
             if results["pdtable"][0] == "ok":
                 out.count("pdtable read ok")
-                oracle(out, case, api, seen, tables, filt_py, results)
+                oracle(out, case, api, sheets, tables4, filt_py, results)
             else:
                 out.count("pdtable read fails:" + results["pdtable"][1])
             if model_ok:
                 for f in FORMS:
-                    op = bc.model_op(seen, to=f, filt=filt_spec, tracker="raising")
-                    op["op"] = "parse_blocks_json"
-                    ops.append(op)
-                    pend.append((f"{api}(to={f})", case, canon_impl(*results[f])))
+                    for sh in sheets:
+                        op = bc.model_op(sh, to=f, filt=filt_spec, tracker="raising")
+                        op["op"] = "parse_blocks_json"
+                        ops.append(op)
+                    pend.append((f"{api}(to={f})", case, canon_impl(*results[f]), len(sheets)))
             if i % 10 == 0:
-                check_unknown_form(out, {"seed": seed, "index": i}, seen if api != "read_csv" else rows, text, xlsx,
-                                   rng.choice(["bogus", "", "PDTABLE", "json", None, 5, "cellgrid "]))
+                check_unknown_form(out, {"seed": seed, "index": i}, seen, text, xlsx,
+                                   rng.choice(["bogus", "", "PDTABLE", "json", None, 5, "cellgrid ", "Pdtable", "jsondata\n"]),
+                                   ops if model_ok else None, pend)
         # regression stream: a table without rows whose unit row is shorter than its name row (an input error since
         # /repo 7179188; before, it read as a Table on which table_to_json_data raised IndexError)
         for i in range(n // 25):
@@ -555,29 +613,33 @@ def run(tier, seed, model_ok, translator, search=False):
             rows = ([["a:", "b"], []] if rng.random() < 0.5 else []) + [["**t"], ["all"], names, units]
             if rng.random() < 0.3:
                 rows += [[], ["**u"], ["all"], ["x"], ["-"], ["1"]]
-            tables = [(2 if rows[0][0] == "a:" else 0, 4, "t")] + ([(len(rows) - 5, 5, "u")] if rows[-1] == ["1"] else [])
+            tables = [(0, 2 if rows[0][0] == "a:" else 0, 4, "t")] + ([(0, len(rows) - 5, 5, "u")] if rows[-1] == ["1"] else [])
             case = {"seed": seed, "index": i, "stream": "short units", "api": "parse_blocks", "rows": grid_to_json(rows),
                     "filter": None, "tables": [list(t) for t in tables]}
             results = {f: read_blocks("parse_blocks", rows, f, None) for f in FORMS}
             c08.add_case(out, case, ["short units", case["rows"]], False)
             out.count("short unit row:" + ("read ok" if results["pdtable"][0] == "ok" else "fails:" + results["pdtable"][1]))
             if results["pdtable"][0] == "ok":
-                oracle(out, case, "parse_blocks", rows, tables, None, results)
+                oracle(out, case, "parse_blocks", [rows], tables, None, results)
             if model_ok:
                 for f in FORMS:
                     op = bc.model_op(rows, to=f, filt=None, tracker="raising")
                     op["op"] = "parse_blocks_json"
                     ops.append(op)
-                    pend.append((f"parse_blocks(to={f})", case, canon_impl(*results[f])))
+                    pend.append((f"parse_blocks(to={f})", case, canon_impl(*results[f]), 1))
     finally:
         shutil.rmtree(tmp, ignore_errors=True)
 
     if model_ok and ops:
-        for (what, case, impl), ans in zip(pend, common.run_model(ops)):
-            if isinstance(ans, dict) and "error" in ans:
-                out.mismatch("driver error", case, impl, ans)
+        answers = common.run_model(ops)
+        pos = 0
+        for what, case, impl, k in pend:
+            group, pos = answers[pos:pos + k], pos + k
+            bad = [a for a in group if isinstance(a, dict) and "error" in a]
+            if bad:
+                out.mismatch("driver error", case, impl, bad[0])
                 continue
-            m = canon_model(ans)
+            m = canon_model(merge_model(group))
             if m != impl:
                 out.mismatch(f"{what}: pdtable vs Lean model", case, impl, m)
     return out
@@ -597,27 +659,20 @@ def replay(rep):
         rows = c02.common_rows_from_json(inp["rows"])
         api = inp.get("api", "parse_blocks")
         filt_py = bc.py_filter(inp.get("filter"))
-        tables = [tuple(t) for t in inp.get("tables", [])]
+        tables = [tuple(t) if len(t) == 4 else (0,) + tuple(t) for t in inp.get("tables", [])]
+        sheets = [rows] if "sheets" not in inp else [c02.common_rows_from_json(sh) for sh in inp["sheets"]]
         tmp = tempfile.mkdtemp(prefix="c07r-")
         try:
             if api == "read_csv":
                 src = "".join(SEP.join(r) + "\n" for r in rows)
             elif api == "read_excel":
-                import openpyxl
                 src = os.path.join(tmp, "w.xlsx")
-                wb = openpyxl.Workbook()
-                ws = wb.active
-                for r_i, r in enumerate(rows, 1):
-                    for c_i, c in enumerate(r, 1):
-                        if c is not None:
-                            ws.cell(row=r_i, column=c_i, value=c)
-                wb.save(src)
-                wb.close()
+                sheets = write_workbook(src, sheets)
             else:
                 src = rows
             results = read_forms(api, src, filt_py, inp.get("plan") or {"mode": "sequential"})
             if results["pdtable"][0] == "ok":
-                oracle(out, dict(inp), api, rows, tables, filt_py, results)
+                oracle(out, dict(inp), api, sheets, tables, filt_py, results)
         finally:
             shutil.rmtree(tmp, ignore_errors=True)
     if out.failures:
